@@ -22,6 +22,9 @@ def const_text(draw, kinds="ifsb"):
     if k == "f":
         v = draw(st.floats(min_value=0.0, max_value=1e300, allow_nan=False, allow_infinity=False))
         return repr(v)
+    if k == "s" and draw(st.integers(0, 5)) == 0:
+        # runs of blanks / a literal tab INSIDE the quotes (text-level processing of a lambda given as a string must not touch them)
+        return draw(st.sampled_from(["'pt  GeV'", "'a   b'", "'  '", "' x  y '", "'a\tb'", "'a \t b'", '"two  blanks"', "'\t'", "'a  # b'"]))
     if k == "s":
         return repr(draw(st.text(alphabet=st.sampled_from(list("abAB_ 0'\"\\\n(){}[]#,:=+-*/.éπ€\U0001F600")), max_size=6)))
     if k == "b":
@@ -46,7 +49,7 @@ class Cfg:
         self.forms = forms or ["attr", "attr", "call", "mcall", "mcall", "sub", "unary", "not", "bin", "bool", "cmp", "ifexp", "tuple",
                                "list", "dict", "lambda", "const", "name", "opcall"]
         self.max_args = max_args
-        self.dict_keys = dict_keys or ["a", "b", "pt", "a b", "class", "", "1x", "id", "value"]
+        self.dict_keys = dict_keys or ["a", "b", "pt", "a b", "class", "", "1x", "id", "value", "pt  GeV", " a", "a  "]
 
 
 @st.composite
